@@ -50,8 +50,25 @@ Qed.
 Lemma make_list_node_total cid oid st ug : total (make_list_node cid oid st ug).
 Proof. unfold make_list_node. apply total_bind; [apply parse_token_total|]. intros [[ns p] tl]. exact I. Qed.
 
+Lemma block_has_operand_total fuel nodes : forall n count,
+  count <= length nodes -> length nodes + 1 <= fuel + count ->
+  total (block_has_operand fuel nodes n count).
+Proof.
+  induction fuel as [|fuel IH]; intros n count Hc Hf; [lia|].
+  simpl. destruct (n_left n) as [l|]; [|exact I].
+  destruct (nth_error nodes l) as [ln|]; [|exact I].
+  destruct (negb _); [exact I|].
+  destruct (Nat.ltb_spec (length nodes) (S count)); [exact I|].
+  apply IH; lia.
+Qed.
+
 Lemma space_list_check_total st ug : total (space_list_check st ug).
-Proof. unfold space_list_check. tot. Qed.
+Proof.
+  unfold space_list_check.
+  destruct (last_left st); [|exact I]. destruct (nth_error (nodes st) n) as [ln|]; [|exact I].
+  apply total_bind; [|intros b; exact I].
+  destruct (_ && _); [|exact I]. apply block_has_operand_total; lia.
+Qed.
 
 Lemma step_total ntoks i tok st : total (step ntoks i tok st).
 Proof.
